@@ -60,6 +60,17 @@ def gen_cases(ctx):
             c["instance"] = gen.gen_instance(rng, rng.choice(["irregular", "classic", "recirc"]),
                                              max_jobs=rng.choice([9, 10, 12]), max_machines=rng.choice([2, 3]))
         yield c
+    for i in range(ctx.scale(4, 200)):
+        # many jobs (more than 10 operations available at once); the library's own partial Gantt
+        # plotter is handed the dispatcher's available list in every state, as the GIF / video
+        # support does - the list must come back unchanged
+        nj = rng.randint(12, 14)
+        inst = {"cls": "many_jobs", "durations": [[rng.randint(1, 4) for _ in range(rng.randint(1, 2))] for _ in range(nj)],
+                "machines": None}
+        inst["machines"] = [[[rng.randrange(3)] for _ in job] for job in inst["durations"]]
+        yield {"kind": "history", "instance": inst, "filter": rng.choice([None, {"names": ["non_idle_machines"], "form": "function"}]),
+               "policy": "random_available", "seed": rng.randrange(2**31), "episodes": 1, "observers": False,
+               "fork_at": None, "plotter": True}
     for i in range(ctx.scale(3000, 720000)):
         c = gen_history_case(rng, max_jobs=rng.choice([2, 3, 4, 5, 6]),
                              max_machines=rng.choice([2, 3, 4, 5]))
@@ -177,6 +188,8 @@ def run_env_case(ctx, case):
     from . import _env_workload as E
     if case["kind"] == "multi_env_filter":
         for event, run, info in E.multi_env_episodes(ctx, case):
+            if event == "filter_changed":
+                continue    # the list cached for this state may still be the old filter's answer
             judge_env_state(ctx, run, info, {"env": "multi", "filter": run.filter_names,
                                              "constructor_filter": case["constructor_filter"],
                                              "setter": case.get("setter")})
@@ -257,6 +270,13 @@ def run_case(ctx, case):
             comp = [rng.choice(gen.FILTER_NAMES) for _ in range(rng.randint(2, 4))]
             check_filter(ctx, run, comp, rng.choice(["string", "enum", "function", "composite"]), L, pruned)
         check_filter(ctx, run, ["dominated_operations", "non_idle_machines"], "enum", ready, pruned)
+        if case.get("plotter"):
+            import matplotlib.pyplot as plt
+            from job_shop_lib.visualization import get_partial_gantt_chart_plotter
+            fig = get_partial_gantt_chart_plotter(show_available_operations=True)(
+                d.schedule, None, d.available_operations(), d.current_time())
+            plt.close(fig)
+            ctx.count("states_shown_to_the_partial_gantt_plotter")
         # available_operations() applies the installed filter to the raw ready list
         avail = d.available_operations()
         ctx.count("available_ops_checks")
